@@ -188,8 +188,12 @@ def run(ctx, drv):
                 original = make_solutions(rng, spec, prob, rng.choice([0, 1, 2, 5]), adversarial=True)
                 obj = original
                 if source == "archive":
-                    arch = C.Archive()
-                    arch._contents = list(original)          # the archive as a container of exactly these solutions
+                    class _Incomparable(C.Dominance):          # an archive as a container of exactly these solutions: nothing dominates
+                        def compare(self, a_, b_):
+                            return 0
+                    arch = C.Archive(_Incomparable())
+                    for s_ in original:
+                        arch.add(s_)
                     obj = arch
                 w = call(IO.save_json, path, obj)
             inp = {"source": source, "problem": spec.describe(), "n": len(original), "file": open(path).read()[:600] if os.path.exists(path) else None}
